@@ -214,9 +214,34 @@ fn directional(ctx: &Ctx, n_programs: u64) {
     ctx.judge_all(cases, Via::Cli, None);
 }
 
+// The text of an interpolation slot is code: the layout rules hold inside it
+// as well. One program, its slots written on one line and spread over
+// several lines (continuation breaks, comments before a break, blank lines,
+// a nested literal with a raw line break against its `\\x0a` spelling).
+fn slot_layout_cases(ctx: &Ctx) -> Vec<(Case, bool)> {
+    let pre = "a := \"x\"\nb := \"y\"\nfn id(v) {\n    return v\n}\n";
+    let groups: Vec<Vec<&str>> = vec![
+        vec!["print($\"<${a + b}>\")", "print($\"<${a +\n    b}>\")", "print($\"<${a + # note\n    b}>\")", "print($\"<${a +\n\n        b}>\")", "print($\"<${ a + b }>\")", "print($\"<${a +\tb}>\")"],
+        vec!["print($\"${id(a, )}|${id(b)}\")", "print($\"${id(\n    a,\n)}|${id(b)}\")", "print($\"${id( # first\n    a, # second\n)}|${id(b)}\")", "print($\"${id(a,)}|${id(\n    b,\n)}\")"],
+        vec!["print($\"${[a, b][1]}\")", "print($\"${[a,\n    b,\n][1]}\")", "print($\"${[a, # one\n    b, # two\n][1]}\")"],
+        vec!["print($\"${a + \"\\x0a\" + b}\")", "print($\"${a + \"\\n\" + b}\")", "print($\"${a + \"\n\" + b}\")"],
+        vec!["print($\"${a + \"q\\x0ar\"}\"->len())", "print($\"${a + \"q\nr\"}\"->len())", "print($\"${a +\n    \"q\nr\"}\"->len())"],
+        vec!["print($\"${{\"k\": a}.k}${b}\")", "print($\"${{\"k\": a,\n}.k}${b}\")"],
+        vec!["print($\"${a + nope}\")", "print($\"${a +\n    nope}\")", "print($\"${a + # c\n    nope}\")"],
+    ];
+    let mut out = vec![];
+    for g in groups {
+        let srcs: Vec<Vec<u8>> = g.iter().map(|s| format!("{pre}{s}\nprint(\"end\")\n").into_bytes()).collect();
+        ctx.label("layout inside an interpolation slot");
+        out.push((Case{property: "C09".into(), kind: "slot_layout".into(), srcs, pred: Pred::Same{same_msg: true, positions: None}, note: format!("{} layouts of one slot", g.len())}, true));
+    }
+    out
+}
+
 pub fn run(ctx: &Ctx) {
     ctx.set_rule("programs from the tape decoder (incl. failing ones) printed in the canonical layout, 3 random layouts (terminator per statement, line breaks with optional comment after continuation tokens, blanks / tabs / CR / FF between tokens, comments with multi-byte text, blank lines, CR LF) and with `_` digit separators / \\xHH spellings: all five must give the same stdout, status and message, at the image of the position under the token map; directional matrix: for every (token, next token) context of valid programs, a line break after the token continues the statement iff it is one of the 25 continuation tokens, else it behaves exactly like `;`. Non-trivial = a layout with a continuation break, a comment or a `;` terminator, and every matrix cell; distinct = distinct source sets");
     ctx.replay_corpus(None);
+    ctx.judge_all(slot_layout_cases(ctx), Via::Cli, None);
     layouts_check(ctx, ctx.n(12_000, 300_000));
     directional(ctx, ctx.n(400, 6_000));
 }
